@@ -16,14 +16,18 @@ tvars == <<vars, tid, l>>
 Tr == Traces[tid]
 Ev == Tr.events[l]
 More == l <= Len(Tr.events)
-Match == /\ toU' = Ev.tu /\ toE' = Ev.te /\ loops' = Ev.loops /\ Len(errors') = Ev.nerr
+\* The candidate origin carried by a queued item (field o of to_unwrap entries) is bookkeeping: it becomes observable
+\* only when a frame is popped, as the origin of the Frame in to_elaborate.  So to_unwrap is compared without it (a
+\* refactoring of that bookkeeping that yields the same Frame origins is still a behaviour), to_elaborate in full.
+NoO(q) == [k \in 1..Len(q) |-> [x |-> q[k].x, d |-> q[k].d, w |-> q[k].w]]
+Match == /\ NoO(toU') = NoO(Ev.tu) /\ toE' = Ev.te /\ loops' = Ev.loops /\ Len(errors') = Ev.nerr
 Step == l' = l + 1 /\ UNCHANGED tid
 
 TInit == /\ tid \in 1..Len(Traces) /\ l = 1 /\ InitWith(Traces[tid].root)
 TPopFrame == More /\ Ev.act = "PopFrame" /\ PopFrameWith(Ev.own) /\ Match /\ Step
 TUnwrap == More /\ Ev.act = "Unwrap" /\ UnwrapWith(Ev.r) /\ Match /\ Step
 TToElab == ToElab /\ UNCHANGED <<tid, l>>        \* silent: no probe (bounded: enabled once per phase)
-TReachLeaf == More /\ Ev.act = "ReachLeaf" /\ ReachLeaf /\ toE = Ev.te /\ toU = Ev.tu /\ Step
+TReachLeaf == More /\ Ev.act = "ReachLeaf" /\ ReachLeaf /\ toE = Ev.te /\ NoO(toU) = NoO(Ev.tu) /\ Step
 TElab == More /\ Ev.act = "Elab" /\ ElabWith(Ev.cf, Ev.r) /\ Match /\ Step
 \* the outer loop may also end through its own condition (both deques empty): no probe there
 TEndSilent == ~More /\ toE = <<>> /\ ReachLeaf /\ UNCHANGED <<tid, l>>
